@@ -521,6 +521,36 @@ pub fn wide_interrupt_spaces(tier: &str, streams: bool) -> Vec<Space> {
     )]
 }
 
+/// Second run of a two-run history on one graph value: an earlier completed run (default
+/// schedule) in the opposite / the same order precedes the explored run.
+pub fn cfgs_after_earlier_run(n: usize, apis: &[Api], with_streams: bool) -> Vec<JobCfg> {
+    let mut v = vec![];
+    for pre_mut in [false, true] {
+        for pre_rev in [false, true] {
+            let mut pre = RunCfg::plain(Api { kind: Kind::ForEach, mutable: pre_mut, with: true }, n);
+            pre.rev = pre_rev;
+            pre.imm_choice = false;
+            for &api in apis.iter().filter(|a| a.with) {
+                for rev in [false, true] {
+                    let mut c = RunCfg::plain(api, n);
+                    c.rev = rev;
+                    c.pre = Some(Box::new(pre.clone()));
+                    v.push(JobCfg::S(c));
+                }
+            }
+            if with_streams {
+                for rev in [false, true] {
+                    let mut c = CCfg::plain(SApi::StreamWith);
+                    c.rev = rev;
+                    c.pre = Some(Box::new(pre.clone()));
+                    v.push(JobCfg::C(c));
+                }
+            }
+        }
+    }
+    v
+}
+
 pub fn conc_with() -> Vec<Api> {
     Api::all_with().into_iter().filter(|a| a.concurrent()).collect()
 }
@@ -567,6 +597,9 @@ pub fn general_spaces(o: &GenOpts) -> Vec<Space> {
         cfgs_fail_interrupt(s.n, &Api::all_with(), &[(Strat::Finish, true), (Strat::Finish, false), (Strat::NextN(1), true)])
     }));
     let with_streams = o.n_stream > 0;
+    v.push(space("second run on a graph value that an earlier run (either order, & / &mut) was completed on, 10 _with APIs x order, shapes 1<=n<=3", shapes_upto(1, 3, false), None, move |s| {
+        cfgs_after_earlier_run(s.n, &Api::all_with(), with_streams)
+    }));
     v.push(space("StreamOpts builder methods called in every order (non-default values for all three settings), shapes 1<=n<=3", shapes_upto(1, 3, false), None, move |s| {
         cfgs_opts_orders(s.n, &Api::all_with(), &[None], with_streams)
     }));
@@ -888,6 +921,7 @@ pub fn c05(tier: &str) -> (Vec<Space>, Focus) {
     v.push(space(&format!("wide families k in {ks1:?}, <=1 deviation from 3 consumer base behaviours"), mk(&ks1), Some(1), wc));
     v.push(space(&format!("wide families k in {ks0:?}, consumer base behaviours only"), mk(&ks0), Some(0), wc));
     v.extend(mid_spaces(tier, false, true, None));
+    v.push(space("stream on a graph value that an earlier run was completed on, shapes 1<=n<=3", shapes_upto(1, 3, false), None, |s| cfgs_after_earlier_run(s.n, &[], true)));
     v.extend(antichain_spaces(tier, AntiOpts { futures: false, streams: true, limits: vec![], limit_below_width: false, fail_antichain: false }));
     v.push(space("StreamOpts builder methods called in every order, shapes 1<=n<=3", shapes_upto(1, 3, false), None, |s| {
         cfgs_opts_orders(s.n, &[], &[None], true)
@@ -937,6 +971,7 @@ pub fn c06(tier: &str) -> (Vec<Space>, Focus) {
     }
     v.extend(wide_spaces(tier, true, false));
     v.extend(mid_spaces(tier, true, true, None));
+    v.push(space("second run on a graph value that an earlier run was completed on, shapes 1<=n<=3", shapes_upto(1, 3, false), None, |s| cfgs_after_earlier_run(s.n, &conc_with(), true)));
     v.extend(antichain_spaces(tier, AntiOpts { futures: true, streams: true, limits: vec![None], limit_below_width: false, fail_antichain: false }));
     v.extend(large_irregular_spaces(tier, true, true, true));
     v.push(space("StreamOpts builder methods called in every order, shapes 1<=n<=3", shapes_upto(1, 3, false), None, |s| {
